@@ -287,6 +287,8 @@ class Run:
 
     def known(self, what):
         line = "KNOWN-FINDING: property=%s %s" % (self.prop, what)
+        if line in self.known_lines:      # one line per listed finding, however many inputs hit it
+            return
         self.known_lines.append(line)
         print(line, flush=True)
 
